@@ -90,7 +90,7 @@ def shrink(exe, lines, kind):
     return out
 
 
-def run_traces(res, pid, plan, seed, dump=True, options=None, exe=None, tag="", clock=False, skip_kinds=()):
+def run_traces(res, pid, plan, seed, dump=True, options=None, exe=None, tag="", clock=False, skip_kinds=(), keep_outputs=None):
     """plan: list of (profile, ntraces, nops).  Fills res.cov and reports violations of `pid`'s kinds."""
     exe = exe or build(res)
     if exe is None:
@@ -116,6 +116,7 @@ def run_traces(res, pid, plan, seed, dump=True, options=None, exe=None, tag="", 
             rc, out, err = fu.result()
             v, ended = parse(rc, out)
             outputs[path] = out
+            if keep_outputs is not None: keep_outputs[path] = out
             stats["traces"] += 1; stats["ops"] += len(lines)
             for l in lines:
                 f = l.split()
